@@ -40,6 +40,12 @@ BUDGETS = {"quick": (60000, 90), "thorough": (3000000, 285)}
 def gen(seed, tier="quick"):
     scn = G.gen_retry(seed, KNOBS)
     r = random.Random(seed ^ 0xC14)
+    if r.random() < 0.05:
+        # the handler answers with the plain strings "defer" / "abort": a library that refuses them ends the run
+        # abnormally (outside this statement); one that accepts them must still emit a single terminal event
+        for c in scn["calls"]:
+            if c.get("decisions"):
+                c["decisions"][-1] = r.choice(["d", "a"])
     if scn["place"]["handler"] != "none" and r.random() < 0.35:
         # a slow sleep handler: time passes between the retry decision (and its `retry` event) and the sleep
         for c in scn["calls"]:
@@ -98,6 +104,9 @@ def oracle(scn, trace):
         end = cf.end
         if end is None:
             continue
+        if any(e["ev"] == "HANDLER" and e["decision"] in ("d", "a") for e in cf.events) and end["how"] == "raise" \
+                and end["exc"]["type"] not in ("RetryExhaustedError", "AbortRetryError"):
+            continue     # the plain-string answer was refused: the run did not end normally
         metrics = [e for e in cf.events if e["ev"] == "METRIC"]
         logs = [e for e in cf.events if e["ev"] == "LOG"]
         m_main = [e for e in metrics if e["event"] not in BREAKER_EVENTS]
